@@ -650,3 +650,47 @@ Proof.
   unfold is_ws, ws_points. cbn [In].
   rewrite !orb_true_iff, !andb_true_iff, !N.leb_le, !N.eqb_eq. lia.
 Qed.
+
+(* ------------------------------------------------------------------ list-valued lines *)
+Lemma split_on_nonempty x s : split_on x s <> [].
+Proof. induction s as [|c r IH]; cbn; [discriminate|]. destruct (UA.eqb c x); [discriminate|]. destruct (split_on x r); discriminate. Qed.
+
+Lemma split_on_app_gen x a b : split_on x (a ++ x :: b) = (split_on x a ++ split_on x b)%list.
+Proof.
+  induction a as [|c r IH]; cbn [app split_on].
+  - now rewrite UA.eqb_refl.
+  - destruct (UA.eqb c x); [now rewrite IH|]. rewrite IH.
+    destruct (split_on x r) as [|h t] eqn:E; [now apply split_on_nonempty in E | reflexivity].
+Qed.
+
+Lemma before_dd_cut u c : before_dd u = u -> last u SPACE <> DASH -> before_dd (u ++ DASH :: DASH :: c) = u.
+Proof.
+  induction u as [|c0 r IH]; intros H L; [reflexivity|]. destruct r as [|c1 r'].
+  - cbn in L. cbn. destruct (UA.eqb_spec c0 DASH) as [->|N]; [congruence|]. reflexivity.
+  - cbn [app before_dd] in *. destruct (UA.eqb c0 DASH && UA.eqb c1 DASH); [discriminate H|].
+    f_equal. apply IH; [now inversion H | exact L].
+Qed.
+
+Lemma last_ws_not_dash a p : allws p = true -> last (a ++ COMMA :: p) SPACE <> DASH.
+Proof.
+  intros W. assert (G : forall q d, allws q = true -> d <> DASH -> last (d :: q) SPACE <> DASH).
+  { induction q as [|w q IHq]; intros d Wq Nd; [exact Nd|]. cbn in Wq. apply andb_prop in Wq as [Ww Wq].
+    change (last (d :: w :: q) SPACE) with (last (w :: q) SPACE). apply IHq; [exact Wq|]. intros ->. vm_compute in Ww. discriminate. }
+  induction a as [|c r IH]; [apply G; [exact W | discriminate]|].
+  cbn [app]. destruct (r ++ COMMA :: p) eqn:E; [destruct r; discriminate E|]. exact IH.
+Qed.
+
+Lemma list_trailing_comment a p c : before_dd (a ++ COMMA :: p) = a ++ COMMA :: p -> allws p = true ->
+  list_fields (a ++ COMMA :: p ++ DASH :: DASH :: c) = list_fields a.
+Proof.
+  intros H W. unfold list_fields.
+  replace (a ++ COMMA :: p ++ DASH :: DASH :: c) with ((a ++ COMMA :: p) ++ DASH :: DASH :: c) by now rewrite <- app_assoc.
+  rewrite before_dd_cut by (assumption || now apply last_ws_not_dash).
+  assert (Ha : before_dd a = a).
+  { clear -H. revert H. induction a as [|c0 r IH]; intros H; [reflexivity|]. destruct r as [|c1 r'].
+    - reflexivity.
+    - cbn [app before_dd] in *. destruct (UA.eqb c0 DASH && UA.eqb c1 DASH); [discriminate H|]. f_equal. apply IH. now inversion H. }
+  rewrite Ha, split_on_app_gen, (split_on_nochar COMMA p) by now apply allws_nocomma.
+  destruct (split_on COMMA a) as [|h t] eqn:E; [now apply split_on_nonempty in E|].
+  cbn [app tl]. rewrite map_app, filter_app. cbn [map filter]. rewrite (strip_allws p W). cbn. now rewrite app_nil_r.
+Qed.
